@@ -7,6 +7,7 @@ import PV.Proofs.BytesLemmas
 import PV.Proofs.C17Lemmas
 import PV.Proofs.SortLemmas
 import PV.Proofs.C17cLemmas
+import PV.Proofs.C11cLemmas
 
 namespace PV
 open PV.Bytes
@@ -234,5 +235,48 @@ theorem c17_fit_window_refused {α : Type} (l : List α) (mask : List Bool) (fr 
   simp [this]
 
 end flow
+
+/-! ### replica files handed over in any order -/
+
+section files
+open PV.Names
+
+/-- **C17 (explicit `files=` lists in any order).**  For every set of replica files whose derived chain names are distinct, the
+    observable put together from the files does not depend on the order in which the caller lists them: names stay attached to
+    the data of the file they were derived from. -/
+theorem c17_assemble_file_order {δ : Type} (nameOf : String → String) (files files' : List (String × δ)) (hp : files.Perm files')
+    (hnd : (files.map (fun f => nameOf f.1)).Nodup) :
+    assembleByFile nameOf files = assembleByFile nameOf files' := by
+  unfold assembleByFile
+  set L := files.map (fun f => (nameOf f.1, f.2)) with hL
+  set L' := files'.map (fun f => (nameOf f.1, f.2)) with hL'
+  have hpp : L.Perm L' := hp.map _
+  -- the sorted version of L' is strictly increasing in the name; L sorts to the same list
+  have hnd' : (L'.map (·.1)).Nodup := by
+    have : (L.map (·.1)).Nodup := by
+      simpa [hL, List.map_map, Function.comp_def] using hnd
+    exact (hpp.map _).nodup_iff.mp this
+  set M := Py.sortBy (fun a b : String × δ => decide (a.1 ≤ b.1)) L' with hM
+  have hMperm : M.Perm L' := C04.perm_sortBy _ L'
+  have hMle : M.Pairwise (fun a b => a.1 ≤ b.1) := by
+    have := C04.pairwise_sortBy (fun a b : String × δ => decide (a.1 ≤ b.1))
+      (fun a b => by simp only [decide_eq_true_eq]; exact le_total _ _)
+      (fun a b c hab hbc => by simp only [decide_eq_true_eq] at *; exact le_trans hab hbc) L'
+    exact this.imp (fun h => by simpa using h)
+  have hMnd : (M.map (·.1)).Nodup := (hMperm.map _).nodup_iff.mpr hnd'
+  have hMlt : M.Pairwise (fun a b => a.1 < b.1) := by
+    have h1 : (M.map (·.1)).Pairwise (· ≤ ·) := List.pairwise_map.mpr hMle
+    have h2 : (M.map (·.1)).Pairwise (· ≠ ·) := hMnd
+    exact List.pairwise_map.mp ((h1.and h2).imp (fun ⟨a, b⟩ => lt_of_le_of_ne a b))
+  exact JsonDoc.sortBy_perm_of_sorted (fun a : String × δ => a.1) L M (hpp.trans hMperm.symm) hMlt
+
+/-- the repaired defect (/repo 74a17bd) as a statement about the old assembly: with the names sorted on their own the result
+    depends on the order of the files - two files listed in descending order exchange their data -/
+theorem c17_names_sorted_apart_witness :
+    assembleNamesSortedApart id [("ensAr2", 2), ("ensAr1", 1)] = [("ensAr1", 2), ("ensAr2", 1)] ∧
+    assembleByFile id [("ensAr2", 2), ("ensAr1", 1)] = [("ensAr1", 1), ("ensAr2", 2)] := by
+  decide +kernel
+
+end files
 
 end PV
